@@ -266,7 +266,7 @@ var specRounds = pbt.Register(&pbt.Spec[RCase]{
 		}
 		return c
 	},
-	Run: RunRounds, Quick: 30, Thorough: 2500, Crashy: true, Retries: 50, CaseCPU: 120e9,
+	Run: RunRounds, Quick: 30, Thorough: 300, Crashy: true, Retries: 50, CaseCPU: 120e9,
 	Assumes: []string{"free-running schedules are chosen by the Go runtime; windows are hit by repetition only"},
 })
 
